@@ -255,7 +255,7 @@ func runFastPaths(args []string) {
 		if os.Getenv("VH_DEBUG_SWEEP") != "" {
 			fmt.Fprintf(os.Stderr, "REC %s strat=%s fast=%v comp=%v cdfa=%v hash=%d\n", pat, strat, isFast, comp != nil, cdfa != nil, contentHash([]byte(pat))%2)
 		}
-		if (ccs != nil || comp != nil || cdfa != nil || bd != nil || ali != nil || isFast) {
+		if ccs != nil || comp != nil || cdfa != nil || bd != nil || ali != nil || isFast {
 			var seen [128]bool
 			var alpha []byte
 			for hi := range rec.Hs {
